@@ -842,14 +842,21 @@ class Network:
         )
         self.peer_connections.append(connection)
 
-        await connection.connect()
-        await connection.send_message(
-            PeerInit.Request(
-                self._settings.credentials.username,
-                typ,
-                ticket
+        try:
+            await connection.connect()
+            await connection.send_message(
+                PeerInit.Request(
+                    self._settings.credentials.username,
+                    typ,
+                    ticket
+                )
             )
-        )
+
+        except asyncio.CancelledError:
+            # This attempt got cancelled (other attempt won the race, request
+            # cancelled): the connection should not be left behind
+            await connection.disconnect(CloseReason.REQUESTED)
+            raise
 
         self._finalize_peer_connection(connection)
 
